@@ -4,5 +4,6 @@ CONSTANTS
   PageSizes = {1,2,3}
   MaxMut = 100
   MaxTrav = 100
+CONSTANT HiddenSets <- SomeHidden
 VIEW CoverView
 INVARIANTS CoverInv
